@@ -144,8 +144,8 @@ class Merger(object):
         toffset = 0
         for i, (subdir, sc, st) in enumerate(
                 zip(self.subdirs, spike_clusters_l, spike_templates_l)):
-            n_clu = np.max(sc) + 1
-            n_tmp = np.max(st) + 1
+            n_clu = int(np.max(sc)) + 1
+            n_tmp = int(np.max(st)) + 1
             sc += coffset
             st += toffset
             self.cluster_offsets.append(coffset)
@@ -196,7 +196,7 @@ class Merger(object):
         for ind, array in enumerate(channel_maps_l):
             array += offset
             self.channel_offsets.append(offset)
-            offset = array.max()
+            offset = int(array.max())
             channel_probes.append(array * 0 + ind)
         channel_maps = _concat(channel_maps_l, axis=0)
         channel_probes = _concat(channel_probes, axis=0)
@@ -256,7 +256,7 @@ class Merger(object):
             arrays = _load_multiple_files(fn, self.subdirs)
             # For ind arrays, we need to take into account the channel offset.
             for array, offset in zip(arrays, self.channel_offsets):
-                array += offset
+                array += int(offset)
             concat = _concat(arrays, axis=0).astype(np.uint32)
             self._save(fn, concat)
 
